@@ -649,8 +649,9 @@ macro_rules! algorithm {
         // Skip any leading zeros. We want to do our check if it can't possibly overflow after.
         // For skipping digit-based formats, this approximation is a way over estimate.
         // NOTE: Skipping zeros is **EXPENSIVE* so we skip that without our format feature
+        // NOTE: The zeros are digits (a base suffix may follow them), so they
+        // only move the start index if they turn out to be the base prefix.
         let zeros = iter.skip_zeros();
-        start_index += zeros;
 
         // Now, check to see if we have a valid base prefix.
         let mut is_prefix = false;
@@ -669,7 +670,7 @@ macro_rules! algorithm {
                     // is as empty as it is for the complete parser.
                     into_error!(Empty, iter.cursor());
                 } else {
-                    start_index += 1;
+                    start_index += zeros + 1;
                 }
             }
         }
